@@ -136,6 +136,24 @@ def judge_witnesses(owner, by, evs, v):
     return n
 
 
+def binding_selftest(binp, scd):
+    """DESIGN 9: a good recorded execution must be accepted, and the same execution with one
+    corrupted field (a reloaded cell) must be rejected by the trace specification."""
+    case = {"id": 1, "o": {"ft": [44], "lt": [10], "enc": [34], "opt": True, "esc": [92], "st": []}, "types": ["s", "i"],
+            "rows": [[{"n": False, "v": [97, 98]}, {"n": False, "v": [49]}], [{"n": True, "v": []}, {"n": False, "v": [50]}]]}
+    by, evs, _, _ = execute(binp, [case], scd, "selftest")
+    if by:
+        raise lib.Inconclusive("binding self-test: a plain table does not round-trip: %s" % by)
+    ev = dict(evs[1])
+    ev["reload"] = [list(r) for r in ev["reload"]]
+    ev["reload"][0][0] = {"n": False, "v": [97]}
+    p = os.path.join(scd, "selftest-corrupt.ndjson")
+    lib.write_ndjson(p, [ev])
+    mms, _ = sc.validate_trace(p, module="Trace_Outfile", chunk=10, procs=1)
+    if not mms:
+        raise lib.Inconclusive("binding self-test: a corrupted trace was accepted by Trace_Outfile")
+
+
 def check(tier):
     t0 = time.time()
     sz = SIZES[tier]
@@ -178,6 +196,8 @@ def check(tier):
                 evs.pop(cid, None)
             lib.log("[C50] %d cases executed, %d disagree, %.1fs" % (len(evs), len(by), time.time() - t0))
             nrep = reduce_and_confirm(binp, by, evs, scd, v, "seed%d" % lib.seed())
+            if tier == "thorough":
+                binding_selftest(binp, scd)
         finally:
             th.join()
         if "e" in box:
